@@ -10,6 +10,7 @@ TRACE: random deeper nests (depth 3) recorded from the real code and evaluated b
 """
 import json
 import os
+import datetime
 import random
 
 from harness import absval, core, repo
@@ -51,8 +52,14 @@ def embed(kind, t):
             'round': f'=ROUND({t},0)', 'mul': f'=2*{t}'}[kind]
 
 
-def env_overrides(env):
+def env_overrides(env, style=0):
+    """style: how the truth of the first condition is held by its cell - 0 a truth value; 1 a date (a non-zero number) / 0;
+    2 a fraction / 0.0: a condition is true when it is non-zero"""
     c1, c2, c3 = env
+    if style == 1:
+        c1 = datetime.datetime(2024, 3, 15) if c1 else 0
+    elif style == 2:
+        c1 = 0.5 if c1 else 0.0
     return [(0, 2, 0, c1), (0, 2, 1, 5 if c2 else 0), (0, 3, 0, 3 if c3 else 1), (0, 4, 0, 2)]
 
 
@@ -230,9 +237,10 @@ def _trace_job(seeds):
         ev = p.session().eval if seeds and (seeds[0] // 40) % 2 else p.eval       # half of the batches: ONE Executor for all environments in turn
         for e, env in enumerate(ENVS):
             if e % 2 == (seeds[0] // 20) % 2:
-                res = ev(env_overrides(env))
+                style = (seeds[0] // 80) % 3
+                res = ev(env_overrides(env, style))
                 for (a, kind, f), r in zip(items, res):
-                    out.append({'ast': a, 'env': list(env), 'emb': kind, 'obs': obs_of(*r), 'formula': f})
+                    out.append({'ast': a, 'env': list(env), 'emb': kind, 'obs': obs_of(*r), 'formula': f, 'style': style})
         return out
     except Exception as e:
         return {'harness_error': f'{type(e).__name__}: {e}'}
@@ -268,7 +276,7 @@ def judge_events(run, evs, part):
     verdicts = validate(run, evs, 'Trace_C13_' + part)
     for i, e in enumerate(evs):
         v = verdicts.get(i + 1)
-        case = {'in': {'ast': e['ast'], 'formula': e['formula'], 'emb': e['emb'], 'env': e['env']}, 'obs': show(e['obs']), 'kind': part}
+        case = {'in': {'ast': e['ast'], 'formula': e['formula'], 'emb': e['emb'], 'env': e['env'], 'style': e.get('style', 0)}, 'obs': show(e['obs']), 'kind': part}
         if v is not None:
             case['ideal'] = v
         run.judge(case, v is None, clause=f"Trace_C13: {e['formula']} with conditions {e['env']} gives {show(e['obs'])}, the specification gives {v}", part=part)
@@ -325,5 +333,5 @@ def replay(run, case):
         error_constants(run)
         return
     p = repo.Probe([i['formula']], CONSTS, timeout=120)
-    r = p.eval(env_overrides(tuple(i['env'])))[0]
+    r = p.eval(env_overrides(tuple(i['env']), i.get('style', 0)))[0]
     judge_events(run, [{'ast': i['ast'], 'env': i['env'], 'emb': i['emb'], 'obs': obs_of(*r), 'formula': i['formula']}], 'replay')
